@@ -312,8 +312,9 @@ Proof. exact full_refuted. Qed.
    startup.rescan_files leaves out PLANNED and VOLATILE and confirms UNCONFIRMED; resume_from_db
    awaits reset_interrupted_steps, watch_known_dirs, rescan_env_vars, rescan_files, rescan_nglobs;
    rescan_env_vars stores the value it saw; a CONFIRMED result for an UNCONFIRMED file is never
-   dropped as stale; validate_dynamic_job with unchanged inputs sets PENDING with the deferred flag of
-   the source (true since fix d760e3e). *)
+   dropped as stale; validate_dynamic_job with unchanged inputs sets PENDING, deferred iff a dynamic input
+   of the step is still unusable in the recording transaction (fix 84081f2; the shapes before it generate
+   mode 1 / 0 and break this theorem by name): the transaction step_op2 of model/Noop.v. *)
 Theorem C04_model_matches_generated_facts :
   (forallb transition_row_ok gen_transitions = true /\ length gen_transitions = 64%nat) /\
   (forall s cu ph r, find_file (fst ph) s = Some r ->
@@ -327,7 +328,9 @@ Theorem C04_model_matches_generated_facts :
    gen_startup_sequence = [1; 2; 3; 4; 5]) /\
   (gen_env_rescan_stores_seen_value = true /\
    existsb (N.eqb (fstate_code FUnconfirmed)) gen_confirmation_kept_states = gen_drops_stale_confirmation) /\
-  (forall l s, step_op (OpValidatePending l) s = set_sstate l SPending gen_validate_unchanged_deferred s).
+  (gen_validate_flag_mode = 2 /\
+   (forall l s, step_op2 (OpValidatePending l) s =
+                set_sstate l SPending (GraphExt.has_unusable_dynamic_input l s) s)).
 Proof. exact (conj transitions_tie (conj hash_job_rule_tie (conj rescan_rule_tie (conj env_rule_tie validate_rule_tie)))). Qed.
 
 (* ------------------------------------------------------------------------------------------ *)
